@@ -106,6 +106,16 @@ def check(tier, seed):
         cases.append({'line': f"pk_encode {s} {rho.hex()} " + "|".join(poly_s(x) for x in t1), 'tag': 'pk_encode after pk_decode', 'want': pk.hex(), 'model': True})
         w1 = [[rng.randrange(0, (R.Q - 1) // (2 * p['gamma2'])) for _ in range(256)] for _ in range(p['k'])]
         cases.append({'line': f"w1_encode {s} " + "|".join(poly_s(x) for x in w1), 'tag': 'w1_encode', 'want': R.w1_encode(p, w1).hex(), 'model': True})
+        # structurally extreme commitments: every coefficient the same value (each end, and each bit pattern of the field), one polynomial differing
+        m1 = (R.Q - 1) // (2 * p['gamma2']) - 1
+        for v in sorted({0, 1, m1 - 1, m1, m1 // 2, 0b0101 & m1 | (0b010000 if m1 > 15 else 0), 0b1010}):
+            if v > m1:
+                continue
+            w1c = [[v] * 256 for _ in range(p['k'])]
+            cases.append({'line': f"w1_encode {s} " + "|".join(poly_s(x) for x in w1c), 'tag': 'w1_encode constant', 'want': R.w1_encode(p, w1c).hex(), 'model': v in (0, m1)})
+            w1d = [[v] * 256 for _ in range(p['k'])]
+            w1d[-1] = [(m1 - v)] * 256
+            cases.append({'line': f"w1_encode {s} " + "|".join(poly_s(x) for x in w1d), 'tag': 'w1_encode constant, last polynomial different', 'want': R.w1_encode(p, w1d).hex(), 'model': False})
     core.run_and_judge(rep, cases, model_every=0)
     return core.finish(rep, b, 'proof', {
         'exhaustive': False,
